@@ -49,6 +49,9 @@ def gen_settings(rng, template, base, allow_runspecs=True, allow_strings=False, 
         for c in rng.sample(cs, rng.randint(1, len(cs))):
             v = rng.choice(VALS)
             s["constants"][c] = str(v) if allow_strings and rng.random() < 0.2 else v
+            if allow_strings and c != "init" and rng.random() < 0.08:
+                # a string is an expression, and an expression may refer to the time t
+                s["constants"][c] = rng.choice(["0.5*t", "2.0 if t < 3 else 5.0", "t - 1.0"])
     if T.TABLES[template] and rng.random() < 0.5:
         s["points"] = {}
         for tb in rng.sample(T.TABLES[template], rng.randint(1, len(T.TABLES[template]))):
